@@ -25,6 +25,50 @@ checks = {
    note="Real Go map iteration realises a subset of the simulated orders; un-owned nondeterminism sources are listed by the seam audit and caught by the real-CLI comparison.", ref="5 C14"),
 }
 
+
+RM = "Trusts the reference models (Earley recogniser, derivation replay, attribute evaluation, LR(1)-merge classification) and the simulated environment (token source, step budget, watchdog); TypeScript runs after a type-erasing stub because no tsc/node>=22 is installed."
+checks.update({
+ "C01": dict(level="exploration", engine="B", technique=TECHB + "; oracle: derivation replay against the specified grammar + Earley membership",
+   text="Seeded exploration: batches of grammars (incl. conflict grammars resolved by default/precedence) are generated under controlled map-order schedules in all five variants, compiled (real go build / node) and run on classified inputs (random sentences, every short string, mutants, every prefix, unknown codes); every accepted parse must replay as a rightmost derivation in reverse of exactly the input.",
+   note=RM, ref="5 C01"),
+ "C02": dict(level="exploration", engine="B", technique=TECHB + "; oracle: Earley membership on reference-classified LALR(1) grammars",
+   text="Seeded exploration as C01, restricted to grammars the reference (not yaccgo) classifies as conflict-free LALR(1): every sentence (exhaustive up to a bound, sampled beyond) must be accepted by every variant.",
+   note=RM, ref="5 C02"),
+ "C04": dict(level="exploration", engine="A", technique=TECH + "; oracle: documented yacc resolution applied to the candidate set of the same run",
+   text="Seeded exploration over operator tables, conflict grammars and random CFGs with random precedence: every two-candidate table cell of every run is compared with the documented resolution (level, associativity, %nonassoc error, default shift, earlier rule).",
+   note="Multi-way cells and reduce/reduce between two rules that both carry precedence are not judged; grammars where yacc's and yaccgo's rule-precedence definitions differ are excluded. The expression-level part (parenthesised values vs precedence climbing) is covered through C07/C08 on operator tables, not separately.", ref="5 C04"),
+ "C06": dict(level="exploration", engine="B", technique=TECHB + "; faults: truncated feed at every position, unknown codes, mutated tokens; oracle: Earley viable-prefix position",
+   text="Seeded exploration with fault injection on the token source: every non-sentence must end in the documented error in every variant (never a crash, a nil result, an accept, or a loop: the driver has a step budget and a divergence watchdog), and for conflict-free grammars after requesting exactly (first non-continuable token)+1 tokens.",
+   note=RM + " Non-termination of conflict grammars resolved by default is not judged (the statement promises termination for conflict-free grammars).", ref="5 C06"),
+ "C07": dict(level="exploration", engine="B", technique=TECHB + "; oracle: reference attribute evaluation over the validated derivation",
+   text="Seeded exploration: random arithmetic/string actions over random $i, several same-typed union fields with poisoned token values, rules of length 0..13, rules that do not assign $$; the returned start value must equal the reference evaluation in every variant.",
+   note=RM + " An unassigned $$ is compared in Go only (0 vs undefined in TypeScript is not pinned).", ref="5 C07"),
+ "C08": dict(level="exploration", engine="B", technique=TECHB + "; oracle: pairwise agreement of the five variants + generated lookup vs table of the same run",
+   text="Seeded exploration: for each grammar the five variants generated under the SAME schedule must agree on verdict, reduction sequence, tokens requested and value for every input, and each variant's generated lookup must return the table built in that run for every (state, symbol).",
+   note=RM, ref="5 C08"),
+ "C11": dict(level="exploration", engine="A", technique=TECH + "; oracle: code assignment rules on the symbol table, constants and translate switch of the file written under the same schedule",
+   text="Seeded exploration over token-declaration mixes x map-order schedules x both languages: literal = character code, explicit number kept, all terminal codes distinct and not -1/0, constants exactly for named tokens, translate maps every code to its own symbol and nothing else.",
+   note="Constants and translate cases are read textually from the generated file; the compiled translate/Action are exercised by the engine-B checks.", ref="5 C11"),
+ "C12": dict(level="exploration", engine="A", technique=TECH + "; faults: one injected grammar defect per case; oracle: reference productivity/definedness",
+   text="Seeded exploration: usable grammars of all families must be processed under every schedule and variant; grammars with exactly one injected defect (undefined, rule-less, unproductive, mutually recursive, unreachable, at the start symbol, next to nullable ones, deep) must be refused with a diagnostic and without writing output.",
+   note="'Says why' = a non-empty diagnostic that is not a Go runtime error.", ref="5 C12"),
+ "C15": dict(level="exploration", engine="B", technique=TECHB + "; oracle: per-parse equality with the same input parsed alone",
+   text="Seeded exploration over histories (init/new + parse of accepted, rejected and lexer-fails-at-i inputs) on every variant and over seeded interleavings of 2-4 -o contexts advanced one yield point at a time (uniform, burst, switch-after-reduce), half with the trace on; every parse must equal the same input parsed alone (verdict, reductions, tokens requested, value, values handed to the lexer, trace).",
+   note=RM + " Exactly one context runs at a time (cooperative scheduler); truly parallel execution under the race detector is not part of the check.", ref="5 C15"),
+ "C16": dict(level="exploration", engine="B", technique=TECHB + "; oracle: the real go build of every output, node load after type erasure",
+   text="Seeded exploration: grammars with any printable literal, long rules ($10+), empty rules, comments in actions, every tag shape and layout are generated in all variants with exactly the prologue/epilogue the statement names; every output yaccgo reports success for is compiled by go build, TypeScript outputs are loaded by node.",
+   note="TypeScript type correctness cannot be decided here (no tsc).", ref="5 C16"),
+ "C17": dict(level="exploration", engine="B", technique=TECHB + "; oracle: reference LR driver over the tables of the same generation + reductions recorded by the actions",
+   text="Seeded exploration: every input is parsed with IsTrace on in the four Go variants; the captured lines must be exactly the actions of a reference LR run over the tables of the same generation, with the rule text of the rules actually reduced.",
+   note=RM, ref="5 C17"),
+ "C18": dict(level="exploration", engine="A", technique=TECH + "; oracle: same-run consistency of listing / DOT text with item sets, lookaheads and dense table",
+   text="Seeded exploration: the debug listing (captured stdout of the real debug path) and the DOT text of DrawGrammar are parsed and compared with the item sets, transitions, lookaheads and dense table of the same run under several schedules.",
+   note="The -g path itself needs `dot` (absent); the DOT text is taken before it would be piped.", ref="5 C18"),
+ "C19": dict(level="fault_enumeration", engine="A", technique="deterministic simulation with fault injection: enumerated input-caused failure stages x placements x variants x schedules, file-system effects recorded behind the fs seam",
+   text="Fault enumeration: every input-caused failure kind the code has (lexical, missing %%, rule syntax, unterminated action/comment, undefined, rule-less, unproductive, $n out of range, $0, >=2000 states) early/late x 5 variants x schedules with a pre-existing (short or long) output file; oracle = bytes of the file and the ordered history of effects on its path; successful runs must leave exactly the fresh-path bytes ending with the epilogue.",
+   note="Disk faults and kill-at-arbitrary-instant are outside the statement and not injected.", ref="5 C19"),
+})
+checks["C05"]["engine"]="A"
 not_applicable = [
  dict(property_id="C10", reason="Pure function of the input text: the path from file text to the rule list has no runtime-, OS- or caller-chosen outcome (no schedule, clock, fault or interleaving); deciding it needs layout generation with a round-trip oracle, i.e. property-based testing, not simulation (DESIGN.md section 6)."),
 ]
